@@ -32,6 +32,22 @@ def run(ck):
     ck.rule("C04-O6", "every loop on the stop path has an exit that does not depend solely on another thread's progress")
     insts = sorted({f.cls for f in F.fn_all(OT + "::process") if f.d.get("inst")})
     ck.require(len(insts) >= 2, "OwnThreadHandler instantiations not found")
+    # ---- O1b: the global logger is destroyed at process exit (its destructor is what drains the backlog then)
+    inst = F.fn("QtLogger::Logger::instance", optional=True)
+    if inst is not None:
+        ck.touch(inst)
+        svars = [v for n in inst.find(lambda n: n.get("k") == "decl") for v in n.get("vars", []) if v.get("static")]
+        news = [n for n in inst.find(lambda n: n.get("k") == "new" and "Logger" in (n.get("alloc") or ""))]
+        if not svars:
+            ck.ob("C04-O1", sitestr(inst), None, "Logger::instance(): no function-local static found; ownership of the global logger not recognised")
+        for v in svars:
+            t = (v.get("type") or "").replace("const ", "")
+            owning = t.startswith(("QScopedPointer<", "std::unique_ptr<", "QSharedPointer<", "std::shared_ptr<")) or t.replace("QtLogger::", "") == "Logger"
+            raw = t.rstrip().endswith("*") or t.rstrip().endswith("*const")
+            ck.ob("C04-O1", sitestr(inst), True if owning else False if (raw and news) else None,
+                  "the global logger is owned by a function-local static %s: its destructor (hence resetOwnThread) runs at process exit" % t.split("<")[0] if owning else
+                  "the global logger is a leaked `new Logger` held in a raw static pointer: ~Logger never runs, so a process that exits without aboutToQuit never drains the backlog" if raw else
+                  "static %s in Logger::instance(): ownership not recognised" % t, key="Logger::instance|leaked-singleton")
     for cls in insts:
         one(ck, cls)
 
